@@ -235,6 +235,26 @@ pub fn abs_pres_legacy(p: &Value, ghosts: &[Value], agg: &Value) -> Option<Value
     Some(json!({"revealed": revealed, "groups": groups, "self_attested": self_attested, "unrevealed": unrevealed, "predicates": predicates, "identifiers": identifiers, "subs": subs, "agg": agg}))
 }
 
+/// `proof` member of a W3C credential document → the model's `ProofDoc.Doc` shape. Which values are AnonCreds data-integrity
+/// proofs is the library's own classification (serde-derived, see the trusted base); purpose and kind are read from the document
+pub fn abs_proof_doc(proof: &Value) -> Value {
+    use anoncreds::data_types::w3c::proof::{DataIntegrityProof, DataIntegrityProofValue};
+    let scalar = |v: &Value| -> Value {
+        match serde_json::from_value::<DataIntegrityProof>(v.clone()) {
+            Ok(p) => {
+                let purpose = if v["proofPurpose"] == "assertionMethod" { 0 } else { 1 };
+                let kind = match p.get_proof_value() { DataIntegrityProofValue::CredentialSignature(_) => 0, DataIntegrityProofValue::CredentialPresentation(_) => 1, DataIntegrityProofValue::Presentation(_) => 2 };
+                json!({"anon": [purpose, kind, 0]})
+            }
+            Err(_) => json!({"other": 0}),
+        }
+    };
+    match proof {
+        Value::Array(a) => json!({"arr": a.iter().map(|e| if e.is_array() { json!({"nested": 0}) } else { scalar(e) }).collect::<Vec<_>>()}),
+        v => json!({"val": scalar(v)}),
+    }
+}
+
 /// `@context` list of a document → the model's `Envelope.Ctx` list: the three URIs the library compares with are named, the
 /// issuer-dependent vocabulary object is `obj 0`, everything else only has an identity (equal values get equal identities)
 pub fn abs_contexts(ctx: &Value) -> Vec<Value> {
